@@ -58,6 +58,11 @@ def build_tree(kind, ident):
 
 
 ATTR_KINDS = {'method_call', 'attr_chain', 'attr_of_call'}
+SOURCE = {   # the source text that parses to the template (so that a check looking at the text instead of the tree sees a consistent text)
+    'call_name': '{}()', 'method_call': 'x.{}()', 'attr_chain': 'x.real.{}', 'nested_call': 'len({}(x))', 'comprehension': '[{}(x) for y in x]',
+    'lambda_body': 'lambda: {}()', 'fstring': "f'a{{{}()}}'", 'subscript': '{}[0]', 'keyword_value': 'max(x, key={})', 'call_of_call': '{}()()',
+    'attr_of_call': 'repr(x).{}', 'ifexp': '{} if x else 1', 'starred': 'max(*{})',
+}
 
 
 def make_gate(spec):
@@ -78,7 +83,8 @@ def make_gate(spec):
         safeeval.parse_expression = lambda e: tree      # stub: ast.parse is a C boundary
         try:
             try:
-                check('<expr>', items)
+                pre, post = SOURCE[kind].split('{}')
+                check(pre + ident + post, items)
                 accepted = True
             except SecurityError:
                 accepted = False
@@ -220,7 +226,9 @@ def _native_main():
         "breakpoint()", "getattr(x, 'real')", "().__class__", "().__class__.__bases__[0].__subclasses__()", "x.__class__", "(lambda: open('/nonexistent/vt'))()",
         "[open('/nonexistent/vt') for y in [1]]", "{open('/nonexistent/vt')}", "type(1)", "vars()", "globals()", "locals()", "dir()", "help()",
         "print('vt')", "delattr(x, 'y')", "setattr(x, 'y', 1)", "memoryview(b'a')", "super()", "object()", "len.__self__", "abs.__call__(1)",
-        "(1).__class__", "''.join.__globals__", "next(iter([open]))", "max([open], key=len)", "sorted([1], key=open)",
+        "(1).__class__", "''.join.__globals__",
+        # identifiers are NFKC-normalised by the parser: spellings of dunders without two adjacent ASCII underscores
+        "x._\uff3fclass_\uff3f", "abs._\uff3fself_\uff3f", "abs._\uff3fself_\uff3f.open('/nonexistent/vt')", "abs._\uff3fself_\uff3f.eval('1+1')", "{x._\uff3fclass_\uff3f}", "next(iter([open]))", "max([open], key=len)", "sorted([1], key=open)",
     ]
     bad = []
     for e in ESC:
